@@ -187,12 +187,19 @@ def strip_comments(text):
     return ''.join(out)
 
 
-def scan_forbidden():
+def scan_forbidden(prop=None):
+    """Every file of the project (as listed in _CoqProject) plus the files of
+    the property's own family directory."""
     bad = []
-    for d, _, fs in os.walk(os.path.join(COQ, 'theories')):
-        for fn in fs:
-            if fn.endswith('.v'):
-                p = os.path.join(d, fn)
+    listed = [os.path.join(COQ, ln.strip()) for ln in open(os.path.join(COQ, '_CoqProject'))
+              if ln.strip().endswith('.v')]
+    if prop is not None:
+        fam = os.path.join(COQ, 'theories', prop.COQ_MODULE.split('.')[1])
+        listed += [os.path.join(fam, f) for f in os.listdir(fam) if f.endswith('.v')]
+        listed.append(os.path.join(COQ, prop.PROPS_FILE))
+    for p in sorted(set(listed)):
+        if True:
+            if True:
                 txt = strip_comments(open(p).read())
                 # a Variable/Hypothesis outside a section also declares an axiom
                 depth = 0
@@ -236,7 +243,7 @@ def check_props_file(prop):
     axioms Print Assumptions reports."""
     path = os.path.join(COQ, prop.PROPS_FILE)
     src = strip_comments(open(path).read())
-    names = re.findall(r'^\s*(?:Theorem|Lemma|Corollary|Example)\s+(\w+)',
+    names = re.findall(r'^\s*(?:Theorem|Lemma|Corollary|Example)\s+([\w\']+)',
                        src, re.M)
     rc, out, err = coqc(path)
     if rc != 0:
@@ -412,7 +419,7 @@ def check(pid, tier, seed):
         build_fail = None
         if rc != 0:
             build_fail = log[-4000:]
-        bad = scan_forbidden()
+        bad = scan_forbidden(prop)
         if bad:
             raise Internal('forbidden declarations in the development: %s' % bad[:5])
         names, pa, perr = (None, None, None)
